@@ -255,6 +255,52 @@ func runC05(b *mon.B) {
 		}
 	}
 
+	// ---- the peer pauses inside a packet (shorter than the read deadline) and resumes
+	for k := 0; k < b.N(30, 600); k++ {
+		caseNo++
+		pk := c05Stream(r, false)
+		if len(pk) > 3 {
+			pk = pk[:3]
+		}
+		pauseIn := r.Intn(len(pk))
+		if len(pk[pauseIn].Clear) < 8 {
+			pk[pauseIn].Clear = c05Body(r, pk[pauseIn].H.Type, 8+r.Intn(60), false)
+		}
+		pause := []time.Duration{500 * time.Millisecond, 1500 * time.Millisecond, 5 * time.Second, 14 * time.Second}[k%4]
+		if !b.Want(caseNo) {
+			continue
+		}
+		b.Eval(1)
+		b.Class("server/pause-inside-packet/%v", pause)
+		c := srv.L.Dial(simnet.RemoteFor(caseNo))
+		before := srv.Tap.Count()
+		for i, p := range pk {
+			w := p.wire(secret)
+			if i == pauseIn {
+				cut := 1 + r.Intn(len(w)-1)
+				c.Feed(w[:cut])
+				c.FeedAfter(pause, w[cut:])
+			} else {
+				c.Feed(w)
+			}
+		}
+		c.EOF()
+		if err := c.WaitClosed(); err != nil {
+			b.Inconclusive("case %d: %v", caseNo, err)
+			continue
+		}
+		invs := srv.Tap.Since(before)
+		handler.take()
+		okAll := len(invs) == len(pk)
+		for i := 0; okAll && i < len(pk); i++ {
+			okAll = invs[i].Session == pk[i].H.Session && invs[i].Seq == pk[i].H.Seq && bytes.Equal(invs[i].Body, pk[i].Clear)
+		}
+		if !okAll {
+			b.Violate(caseNo, "C05/server/pause-inside-packet", fmt.Sprintf("the peer paused %v inside packet %d of %d (well below the read deadline) and resumed: %d packets reached the handler / contents differ", pause, pauseIn+1, len(pk), len(invs)),
+				map[string]interface{}{"pause": pause.String(), "packets": len(pk), "delivered": len(invs)})
+		}
+	}
+
 	// ---- truncated and stalled streams
 	srv.Net.SetKeepLog(true)
 	for k := 0; k < b.N(60, 1200); k++ {
@@ -320,52 +366,6 @@ func runC05(b *mon.B) {
 			if i < len(pk) && !bytes.Equal(iv.Body, pk[i].Clear) {
 				b.Violate(caseNo, "C05/server/shortened-packet/"+where, "a packet delivered before the truncation point differs from what was sent", nil)
 			}
-		}
-	}
-
-	// ---- the peer pauses inside a packet (shorter than the read deadline) and resumes
-	for k := 0; k < b.N(30, 600); k++ {
-		caseNo++
-		pk := c05Stream(r, false)
-		if len(pk) > 3 {
-			pk = pk[:3]
-		}
-		pauseIn := r.Intn(len(pk))
-		if len(pk[pauseIn].Clear) < 8 {
-			pk[pauseIn].Clear = c05Body(r, pk[pauseIn].H.Type, 8+r.Intn(60), false)
-		}
-		pause := []time.Duration{500 * time.Millisecond, 1500 * time.Millisecond, 5 * time.Second, 14 * time.Second}[k%4]
-		if !b.Want(caseNo) {
-			continue
-		}
-		b.Eval(1)
-		b.Class("server/pause-inside-packet/%v", pause)
-		c := srv.L.Dial(simnet.RemoteFor(caseNo))
-		before := srv.Tap.Count()
-		for i, p := range pk {
-			w := p.wire(secret)
-			if i == pauseIn {
-				cut := 1 + r.Intn(len(w)-1)
-				c.Feed(w[:cut])
-				c.FeedAfter(pause, w[cut:])
-			} else {
-				c.Feed(w)
-			}
-		}
-		c.EOF()
-		if err := c.WaitClosed(); err != nil {
-			b.Inconclusive("case %d: %v", caseNo, err)
-			continue
-		}
-		invs := srv.Tap.Since(before)
-		handler.take()
-		okAll := len(invs) == len(pk)
-		for i := 0; okAll && i < len(pk); i++ {
-			okAll = invs[i].Session == pk[i].H.Session && invs[i].Seq == pk[i].H.Seq && bytes.Equal(invs[i].Body, pk[i].Clear)
-		}
-		if !okAll {
-			b.Violate(caseNo, "C05/server/pause-inside-packet", fmt.Sprintf("the peer paused %v inside packet %d of %d (well below the read deadline) and resumed: %d packets reached the handler / contents differ", pause, pauseIn+1, len(pk), len(invs)),
-				map[string]interface{}{"pause": pause.String(), "packets": len(pk), "delivered": len(invs)})
 		}
 	}
 
